@@ -213,9 +213,9 @@ func c35Rotation(depth int) *explore.Scenario {
 				return
 			}
 			var cs tls.ConnectionState
-			mode := x.Choose("mode", 2)
+			mode := x.Choose("mode", 3) // 0 explicit keys, 1 auto-managed keys, 2 explicit keys on a Config whose first key came from the deprecated SessionTicketKey field
 			var hist []string
-			if mode == 0 {
+			if mode == 0 || mode == 2 {
 				// explicit keys: each step installs a window of <=2 keys [k_i, k_(i-1)] or jumps
 				cfg := &tls.Config{Time: peer.FixedTime}
 				type tk struct {
@@ -224,7 +224,12 @@ func c35Rotation(depth int) *explore.Scenario {
 				}
 				var tickets []tk
 				cur := []int{1}
-				cfg.SetSessionTicketKeys([][32]byte{keyN(1)})
+				if mode == 2 {
+					cfg.SessionTicketKey = keyN(1) // used as the only key until SetSessionTicketKeys is called, which then takes over for good
+					hist = append(hist, "legacy-field")
+				} else {
+					cfg.SetSessionTicketKeys([][32]byte{keyN(1)})
+				}
 				for step := 0; step < depth; step++ {
 					t, _ := cfg.EncryptTicket(cs, ss)
 					tickets = append(tickets, tk{t, cur[0]})
@@ -313,7 +318,7 @@ func c35Rotation(depth int) *explore.Scenario {
 			r.Nontrivial = true
 			r.Class = fmt.Sprintf("%d|%v", mode, hist)
 			if len(hist) > 2 && hist[0] != hist[1] {
-				r.Sample = map[string]any{"mode": []string{"explicit-keys", "auto-keys"}[mode], "history": hist}
+				r.Sample = map[string]any{"mode": []string{"explicit-keys", "auto-keys", "legacy-field-then-explicit-keys"}[mode], "history": hist}
 			}
 			return
 		},
@@ -494,7 +499,7 @@ func c35Scenarios(thorough bool) []*explore.Scenario {
 func init() {
 	register(&Prop{ID: "C35", Level: "exploration", Variant: "A", Scenarios: c35Scenarios,
 		Run: func(c *explore.Check, thorough bool) {
-			c.Rule = "SessionStates captured from real TLS 1.2 (EMS / no EMS) and 1.3 handshakes with and without a client certificate x Extra of 0/1/3 entries x key sets of 1-3 keys: decrypt(encrypt(s)) serialises identically; every single-bit flip (every 3rd byte for tickets > 400 B in quick), every truncation and 1-4 appended bytes yield (nil,nil); oldest configured key accepted, unconfigured key refused; every history of <=3 (5) explicit rotations and of <=5 (7) clock advances from {0,23h,25h,3d,8d} under auto-managed keys against a reference model; TicketKeyFromBytes on all single-byte-set inputs vs installed keys and SHA-512 slices; Config.Clone followed by SetSessionTicketKeys on the clone or the origin ({1,2,3} initial x {1,2,3} new keys): the other Config keeps exactly its keys; forged ClientSessionStates (constructor and setters) x secret lengths {0,1,16,31,32,33,47,48,49,64,255} x 4 versions x 5 suites x 3 ticket lengths return exactly the supplied version, suite, ticket and master secret. distinct = (state, keys) / history"
+			c.Rule = "SessionStates captured from real TLS 1.2 (EMS / no EMS) and 1.3 handshakes with and without a client certificate x Extra of 0/1/3 entries x key sets of 1-3 keys: decrypt(encrypt(s)) serialises identically; every single-bit flip (every 3rd byte for tickets > 400 B in quick), every truncation and 1-4 appended bytes yield (nil,nil); oldest configured key accepted, unconfigured key refused; every history of <=3 (5) explicit rotations (on a Config whose first key was installed by SetSessionTicketKeys, and on one where it came from the deprecated SessionTicketKey field) and of <=5 (7) clock advances from {0,23h,25h,3d,8d} under auto-managed keys against a reference model; TicketKeyFromBytes on all single-byte-set inputs vs installed keys and SHA-512 slices; Config.Clone followed by SetSessionTicketKeys on the clone or the origin ({1,2,3} initial x {1,2,3} new keys): the other Config keeps exactly its keys; forged ClientSessionStates (constructor and setters) x secret lengths {0,1,16,31,32,33,47,48,49,64,255} x 4 versions x 5 suites x 3 ticket lengths return exactly the supplied version, suite, ticket and master secret. distinct = (state, keys) / history"
 			c.Assumptions = []string{"reference model of auto rotation: a new key every 24h on access, keys older than 7 days dropped at rotation time", "end-to-end resumption through a forged ClientSessionState (48-byte TLS 1.2 master secret) is exercised by C20; here the state itself is checked for every secret length"}
 			runAll(c, c35Scenarios(thorough), 0)
 			c.Gate(c.Total.Counters["mutated_tickets"] > 10000, "non-vacuity: %d mutated tickets", c.Total.Counters["mutated_tickets"])
